@@ -461,10 +461,47 @@ func isRegexpMemo(fa FieldAccess) bool {
 // rootedAtParse: v is (a type assertion / conversion of) the first result of grammar.Parse, possibly handed through
 // an unexported helper of package bexpr all of whose non-nil results are.
 func rootedAtParse(prog *Program, a *Anchors, v ssa.Value, depth int) bool {
-	if depth > 3 {
+	if depth > 5 {
 		return false
 	}
 	root, _ := rootOf(v)
+	switch x := root.(type) {
+	case *ssa.Phi:
+		// every way the value can have been produced
+		for _, e := range x.Edges {
+			if c, isC := e.(*ssa.Const); isC && c.Value == nil {
+				continue
+			}
+			if !rootedAtParse(prog, a, e, depth+1) {
+				return false
+			}
+		}
+		return len(x.Edges) > 0
+	case *ssa.Parameter:
+		// a parameter of a helper that only ever runs as a static call: what every caller passes
+		fn := x.Parent()
+		if !prog.contextOnly(fn, func(c *ssa.Function) bool { return prog.InModule(c) }) {
+			return false
+		}
+		idx := -1
+		for i, p := range fn.Params {
+			if p == x {
+				idx = i
+			}
+		}
+		n := 0
+		for _, e := range prog.CG.Nodes[fn].In {
+			if e.Site == nil || isSynthetic(e.Caller.Func) {
+				continue
+			}
+			args := e.Site.Common().Args
+			if idx < 0 || idx >= len(args) || !rootedAtParse(prog, a, args[idx], depth+1) {
+				return false
+			}
+			n++
+		}
+		return n > 0
+	}
 	ex, ok := root.(*ssa.Extract)
 	if !ok || ex.Index != 0 {
 		return false
@@ -527,7 +564,8 @@ func checkTreeHandedOver(r *Run, prog *Program, a *Anchors, pfx string) {
 		writes++
 		ok := rootedAtParse(prog, a, fa.Val, 0)
 		desc := describeRoot(prog, fa.Val)
-		r.Check(pfx+".tree-handover", fa.Fn.Name()+":store:Evaluator."+astField, prog.pos(fa.Instr.Pos()), ok && fa.Fn == a.CreateEv,
+		inCreate := fa.Fn == a.CreateEv || (bexprHelper(prog, a, fa.Fn) && prog.contextOnly(fa.Fn, func(c *ssa.Function) bool { return c == a.CreateEv }))
+		r.Check(pfx+".tree-handover", fa.Fn.Name()+":store:Evaluator."+astField, prog.pos(fa.Instr.Pos()), ok && inCreate,
 			"Evaluator."+astField+" must be written only by CreateEvaluator with the (type-asserted) result of grammar.Parse; here: "+desc)
 	}
 	r.Check(pfx+".tree-handover", "Evaluator."+astField+":writers", prog.pos(a.CreateEv.Pos()), writes == 1, fmt.Sprintf("%d writers of Evaluator.%s (expected exactly one)", writes, astField))
@@ -628,4 +666,49 @@ func (p *Program) contextOnly(fn *ssa.Function, within func(*ssa.Function) bool)
 		}
 	}
 	return true
+}
+
+// ctorHelper: fn is one of the two constructors or an unexported helper that only ever runs as a static call from one
+// (directly or through other such helpers): what it does, it does while an evaluator or filter is being created.
+func (p *Program) ctorHelper(a *Anchors, fn *ssa.Function, depth int) bool {
+	if fn == a.CreateEv || fn == a.CreateFi {
+		return true
+	}
+	if depth > 3 || !bexprHelper(p, a, fn) {
+		return false
+	}
+	return p.contextOnly(fn, func(c *ssa.Function) bool { return p.ctorHelper(a, c, depth+1) })
+}
+
+// originOfParam: a parameter of a helper that has exactly one (static) call site is the argument passed there; followed
+// transitively. Any other value is returned as it is.
+func (p *Program) originOfParam(v ssa.Value, depth int) ssa.Value {
+	par, ok := v.(*ssa.Parameter)
+	if !ok || depth > 4 {
+		return v
+	}
+	fn := par.Parent()
+	if !p.contextOnly(fn, func(c *ssa.Function) bool { return p.InModule(c) }) {
+		return v
+	}
+	idx := -1
+	for i, q := range fn.Params {
+		if q == par {
+			idx = i
+		}
+	}
+	var site ssa.CallInstruction
+	for _, e := range p.CG.Nodes[fn].In {
+		if e.Site == nil || isSynthetic(e.Caller.Func) {
+			continue
+		}
+		if site != nil {
+			return v // more than one call site
+		}
+		site = e.Site
+	}
+	if site == nil || idx < 0 || idx >= len(site.Common().Args) {
+		return v
+	}
+	return p.originOfParam(site.Common().Args[idx], depth+1)
 }
